@@ -130,6 +130,41 @@ def check_vector_unary_and_maps(run, tree):
                "v.%s treats one component differently from the others" % name)
 
 
+def check_vector_component_reassigned(run, tree):
+    """history: a component of a Vector is assigned after construction (v.x = ..., v.z = ... on a 2-component vector); every later operation
+    - indexing, copy, negation, the numpy dispatch, nvec - sees the CURRENT components"""
+    hooks = core_hooks()
+    vi = tree.cls(VECTOR_Q)
+    for label, ncomp, comp in (("x replaced", 3, "x"), ("z replaced", 3, "z"), ("z added to a 2-component vector", 2, "z")):
+        construct = "%s::history[%s after construction]" % (VECTOR_Q, label)
+        try:
+            v, _ = make_vector(tree, {c: "L." + c for c in "xyz"[:ncomp]}, hooks=hooks)
+            ev = _ev(tree, hooks)
+            vector_components(tree, v, hooks)            # a first access, as any earlier operation would have made
+            ev.obj_setattr(v, comp, ArrTok("NEW." + comp, "u", (3,)))
+            want_tags = {c: ("NEW." + c if c == comp else "L." + c) for c in sorted(set("xyz"[:ncomp]) | {comp})}
+            problems = []
+            got = {c: a.origin for c, a in vector_components(tree, v, hooks).items()}
+            if got != want_tags:
+                problems.append("components seen by the class: %s (required %s)" % (got, want_tags))
+            for mname, args, want_f in (("__getitem__", [slice(1, 3, None)], lambda t: ("idx", t, slice_key((3,), slice(1, 3, None)))), ("copy", [], lambda t: ("copy", t)),
+                                        ("__neg__", [], lambda t: ("op", "__neg__", t, None))):
+                res = call_method(tree, hooks, v, mname, *args)
+                got = {c: a.origin for c, a in vector_components(tree, res, hooks).items()} if isinstance(res, PyObj) else res
+                want = {c: want_f(t) for c, t in want_tags.items()}
+                if got != want:
+                    problems.append("v.%s -> %s (required %s)" % (mname, got, want))
+            nv = ev.obj_getattr(v, "nvec")
+            if nv != len(want_tags):
+                problems.append("nvec = %r (required %d)" % (nv, len(want_tags)))
+            run.ob(construct, not problems, "src/osyris/core/vector.py", "; ".join(problems[:2]) or "indexing, copy, negation and nvec use the current components",
+                   "after v.%s = ... a slice / sort of the group that holds v selects rows of the OLD component (a component table built once at construction)" % comp)
+        except (Raised, ProgramRaised) as e:
+            run.violated(construct, "src/osyris/core/vector.py", "raises %s" % e, label)
+        except ERR as e:
+            run.unresolved(construct, "src/osyris/core/vector.py", "cannot fold: %s" % e)
+
+
 def check_vector_norm_fresh(run, tree):
     """norm reflects the CURRENT components (no stale cache): fold norm, change a component in place, fold again."""
     hooks = core_hooks()
